@@ -82,6 +82,19 @@ DEEPER class d (k < d) that does not declare it has its cache filled (``R<d>`` /
 of k and j too; the fills before or after k became an owner), followed by nothing / one / two further steps
 (class-level sets ``S`` of x or ``Sq<k>`` = ``K.q = v`` at j, k, d; another read / instance; the owner replaced
 again; instance set / read).  chain4 = A ; B(A) ; C(B) ; D(C).
+
+Re-read family (``fam=reread``; chain2 / chain3, structured) and abstract dimension (``abstract=<classes>``: the named
+classes carry the class attribute ``__abstract = True``, param's marker for classes that are "only bases"; the
+oracle does not know the marker -- the statement speaks of every class and instance).  New operations: the
+namespace of an INSTANCE read in the middle of a history, through each of its consumers
+
+    IV<j>  ``insts[j].param.values()``        IP<j>  ``repr(insts[j])``
+    IJ<j>  ``insts[j].param.serialize_parameters()``      IE<j>  ``insts[j].param.objects('existing')``
+
+History = [instance of class d, without / with an instance-level Parameter (``I0`` instance set, ``IR0`` =
+``insts[0].param['x']``)] + [0..2 namespace reads: of any class, of the instance through IV / IP / IJ / IE] +
+one class-level change (``S<j>`` / ``Pq<j>`` / ``Px<j>`` on any class j) + [nothing | a further instance-level step |
+a re-read followed by a second change]; the clauses are evaluated after the last step as everywhere.
 """
 import json
 import logging
@@ -203,6 +216,17 @@ def configs():
                 if xtype:
                     c['xtype'] = xtype
                 out.append(c)
+    # re-read family (structured): instance / class namespaces read, class-level change, read again;
+    # abstract dimension: classes flagged `__abstract = True`
+    for xtype in (None, 'String'):
+        for shape, abss in (('chain2', (None, 'A', 'B')), ('chain3', (None, 'B', 'C', 'AB', 'BC'))):
+            for ab in abss:
+                c = {'shape': shape, 'redecl': False, 'fam': 'reread'}
+                if ab:
+                    c['abstract'] = ab
+                if xtype:
+                    c['xtype'] = xtype
+                out.append(c)
     return out
 
 
@@ -210,7 +234,8 @@ def cfg_text(cfg):
     return 'shape=%s redecl=%s%s%s' % (cfg['shape'], redecl_class(cfg) or 'none',
                                        ' xtype=%s' % cfg['xtype'] if cfg.get('xtype') else '',
                                        ' fault=%s' % cfg['fault'] if cfg.get('fault') else '') + (
-        ' upd=%s' % cfg['upd'] if cfg.get('upd') else '')
+        ' upd=%s' % cfg['upd'] if cfg.get('upd') else '') + (
+        ' abstract=%s' % cfg['abstract'] if cfg.get('abstract') else '')
 
 
 def xval(cfg, n, current=None):
@@ -234,13 +259,14 @@ def xdecl(cfg, value_src, number_kw=''):
 def class_source(cfg):
     src = ''
     for cname, base in SHAPES[cfg['shape']]:
+        ab = '    __abstract = True\n' if cname in (cfg.get('abstract') or '') else ''
         if base is None:
-            src += ('class A(param.Parameterized):\n    x = %s\n'
-                    "    y = param.String('s')\n" % xdecl(cfg, xval(cfg, 1), ', bounds=(0, 1000)'))
+            src += ('class A(param.Parameterized):\n%s    x = %s\n'
+                    "    y = param.String('s')\n" % (ab, xdecl(cfg, xval(cfg, 1), ', bounds=(0, 1000)')))
         elif cname == redecl_class(cfg):
-            src += 'class %s(%s):\n    x = %s\n' % (cname, base, xdecl(cfg, xval(cfg, 2)))
+            src += 'class %s(%s):\n%s    x = %s\n' % (cname, base, ab, xdecl(cfg, xval(cfg, 2)))
         else:
-            src += 'class %s(%s):\n    pass\n' % (cname, base)
+            src += 'class %s(%s):\n%s' % (cname, base, ab or '    pass\n')
     if cfg.get('fault'):
         src += FAULT_SRC
     return src
@@ -291,7 +317,9 @@ def _split(op):
     return kind, int(op[len(kind):])
 
 
-INST_KINDS = ('I', 'IR', 'IU', 'WI', 'DI', 'GI')
+INST_KINDS = ('I', 'IR', 'IU', 'WI', 'DI', 'GI', 'IV', 'IP', 'IJ', 'IE')
+INST_READS = {'IV': 'insts[%d].param.values()', 'IP': 'repr(insts[%d])',
+              'IJ': 'insts[%d].param.serialize_parameters()', 'IE': "insts[%d].param.objects('existing')"}
 PROBE_KINDS = ('WI', 'DI', 'GI', 'WK')
 CLASS_KINDS = ('R', 'S', 'SF', 'Sq', 'Pq', 'Px', 'N', 'U', 'UO', 'UC', 'WK')
 _ANC = {}
@@ -375,6 +403,8 @@ def op_source(op, step, cfg, how):
         return 'insts[%d].x = %s' % (i, xval(cfg, 40 + step, 'insts[%d].x' % i))
     if kind == 'IR':
         return "insts[%d].param['x']" % i
+    if kind in INST_READS:
+        return INST_READS[kind] % i
     if kind == 'Sq':
         return '%s.q = %d' % (cn, 60 + step)
     if kind == 'U':
@@ -643,6 +673,8 @@ def shrink(cfg, how, ops, clause):
             if len(SHAPES[shape]) <= used or len(SHAPES[shape]) >= len(SHAPES[cfg['shape']]):
                 continue
             c2 = dict(cfg, shape=shape, redecl=cfg['redecl'] if redecl_class(cfg) in [c for c, _ in SHAPES[shape][1:]] else False)
+            if cfg.get('abstract'):
+                c2['abstract'] = ''.join(c for c in cfg['abstract'] if c in [k for k, _ in SHAPES[shape]]) or None
             if ok(c2, how, ops):
                 cfg = c2
                 changed = True
@@ -652,6 +684,14 @@ def shrink(cfg, how, ops, clause):
             if ok(c2, how, ops):
                 cfg = c2
                 changed = True
+        if not changed and cfg.get('abstract'):
+            ab = cfg['abstract']
+            for ab2 in [None] + [ab[:k] + ab[k + 1:] for k in range(len(ab)) if len(ab) > 1]:
+                c2 = dict(cfg, abstract=ab2)
+                if ok(c2, how, ops):
+                    cfg = c2
+                    changed = True
+                    break
         if not changed and how != 'getitem' and ok(cfg, 'getitem', ops):
             how = 'getitem'
             changed = True
@@ -758,6 +798,64 @@ def shadow_histories(cfg, tier):
     return out
 
 
+def reread_histories(cfg, tier, seed=0):
+    """Structured family: namespaces (of an instance through values / repr / serialization / objects('existing'),
+    of classes) read, then a class-level change on any class, then (optionally) more.  -> sorted distinct histories"""
+    n = len(SHAPES[cfg['shape']])
+    thorough = tier == 'thorough'
+    out = set()
+    changes = ['S%d' % j for j in range(n)] + ['Px%d' % j for j in range(n)]
+    if not cfg.get('xtype'):
+        changes += ['Pq%d' % j for j in range(n)]
+    creads = ['R%d' % k for k in range(n)]
+    ireads = ['%s0' % k for k in INST_READS]
+
+    def keep(h, one_in):
+        return thorough or zlib.crc32(('%d|%s|%s' % (seed, cfg_text(cfg), ';'.join(h))).encode()) % one_in == 0
+
+    for d in [None] + list(range(n)):
+        iparts = [()] if d is None else [('N%d' % d,), ('N%d' % d, 'I0'), ('N%d' % d, 'IR0')]
+        reads = creads + ([] if d is None else ireads)
+        rsets = [()] + [(r,) for r in reads] + [(r1, r2) for r1 in reads for r2 in reads if r1 != r2]
+        for ip in iparts:
+            for rs in rsets:
+                if d is None and not rs:
+                    continue
+                for c in changes:
+                    h = ip + rs + (c,)
+                    if len(rs) == 2 and not keep(h, 6):
+                        continue
+                    out.add(h)
+                    if len(rs) == 2:
+                        continue
+                    # the history goes on: instance-level step / re-read and a second change
+                    tails = []
+                    if d is not None:
+                        tails += [('I0',), ('IR0',)]
+                    for r in (rs or reads[:1]):
+                        for c2 in changes:
+                            if c2 != c:
+                                tails.append((r, c2))
+                    for t in tails:
+                        if keep(h + t, 4):
+                            out.add(h + t)
+    return sorted(h for h in out if valid_history(h, cfg['shape']))
+
+
+def reread_sample(cfg, tier, seed):
+    hs = reread_histories(cfg, tier, seed)
+    if tier == 'thorough':
+        return hs
+    # quick: chain3 with the half, the non-Dynamic type with a quarter of that, selected by the seed
+    k = (10 if tier == 'smoke' else 1) * (2 if cfg['shape'] == 'chain3' else 1) * (4 if cfg.get('xtype') else 1)
+    return [h for h in hs if len(h) <= 3 or k == 1
+            or zlib.crc32(('s|%d|%s|%s' % (seed, cfg_text(cfg), ';'.join(h))).encode()) % k == 0]
+
+
+def fam_sample(cfg, tier, seed):
+    return reread_sample(cfg, tier, seed) if cfg['fam'] == 'reread' else shadow_sample(cfg, tier, seed)
+
+
 def plan(tier, cfg):
     """-> (max length enumerated exhaustively (all lengths 1..L), [(length, sample size)], hows)"""
     n = len(SHAPES[cfg['shape']])
@@ -850,7 +948,7 @@ def _work(task):
 
     if mode == 'lst':
         for ops in arg[1]:
-            if tier == 'thorough':
+            if tier == 'thorough' and (cfg.get('fam') != 'reread' or len(ops) <= 4):
                 for how in HOWS:
                     one(ops, how)
             else:
@@ -883,7 +981,7 @@ def make_tasks(tier, seed):
     tasks = []
     for cfg in configs():
         if cfg.get('fam'):
-            hs = shadow_sample(cfg, tier, seed)
+            hs = fam_sample(cfg, tier, seed)
             for a in range(0, len(hs), 250):
                 tasks.append((cfg, 'lst', (6, hs[a:a + 250]), seed, tier))
             continue
@@ -904,6 +1002,10 @@ def make_tasks(tier, seed):
 def plan_text(tier):
     out = []
     for cfg in configs():
+        if cfg.get('fam') == 'reread':
+            out.append('%s [re-read family]: %d structured histories (length 2..7)' % (
+                cfg_text(cfg), len(reread_sample(cfg, tier, 0))))
+            continue
         if cfg.get('fam'):
             nall = len(shadow_histories(cfg, tier))
             out.append('%s [shadow family]: %d of the %d structured histories (length 3..9)' % (
